@@ -55,10 +55,13 @@ def sizes_for(op, smax):
     return list(itertools.product(r, r, r))
 
 
-def kernel_ob(kop, dbl, nn, pmode=0, p=1, pr=1, unwind=80, timeout=None):
+def kernel_ob(kop, dbl, nn, pmode=0, p=1, pr=1, unwind=80, timeout=None, concrete=False):
     kn = {0: "rotate", 1: "mul_xp_minus_one", 2: "automorphism"}[kop]
     d = {"KOP": kop, "DBL": dbl, "NN": nn, "PMODE": pmode}
-    name = "kernel/%s/%s/N=%d" % (kn, "f64" if dbl else "i64", nn)
+    if concrete:
+        d["CONCRETE_PROBE"] = None
+        d["VF_NOLOG"] = None
+    name = "kernel%s/%s/%s/N=%d" % ("-probe" if concrete else "", kn, "f64" if dbl else "i64", nn)
     if pmode == 0:
         d["P"] = "INT64_C(%d)" % p if p > -(1 << 63) else "INT64_MIN"
         name += "/p=%d" % p
@@ -70,5 +73,10 @@ def kernel_ob(kop, dbl, nn, pmode=0, p=1, pr=1, unwind=80, timeout=None):
     if kop == 1 and dbl:
         d["PROBE"] = None
         name += "/probe-data"
-    return Ob(name, H, "h_kernel", d, LIBS, unwind=unwind, timeout=timeout, unwindset=p_unwindset(nn) if pmode != 0 else None, family="kernel %s %s" % (kn, "f64" if dbl else "i64"),
-              desc="raw kernel, out-of-place and in-place on the same symbolic data, both equal the signed permutation j->(j+p) / j*p mod 2N")
+    o = Ob(name, H, "h_kernel", d, LIBS, unwind=unwind, timeout=timeout, unwindset=p_unwindset(nn) if pmode != 0 else None, family="kernel %s %s" % (kn, "f64" if dbl else "i64"),
+           desc="raw kernel, out-of-place and in-place on the same symbolic data, both equal the signed permutation j->(j+p) / j*p mod 2N")
+    if concrete:
+        o.flags = ["--max-field-sensitivity-array-size", str(nn + 8)]
+        o.family += " (concrete probe, large N)"
+        o.desc = "large N: concrete injective probe vector and concrete p executed by the symbolic engine; out-of-place and in-place results equal the signed permutation"
+    return o
